@@ -214,6 +214,13 @@ func (p c12) start(c *core.Ctx) {
 	withDeps := c.Rng.Intn(3) == 0
 	withLazy := c.Rng.Intn(2) == 0
 	withLate := c.Rng.Intn(3) == 0
+	// every fifth start with post-processors: all instantiation-aware processors of the application are lazy
+	// ones (used as registered), like the built-in processors - the harness observer is left out
+	allLazy := npp > 0 && c.Rng.Intn(5) == 0
+	if allLazy {
+		withDeps, withLate, withLazy = false, false, true
+		c.Count("starts_with_lazy_post_processors_only", 1)
+	}
 	late := 0
 	lazyPP := map[string]bool{}
 	var plain []int // indices into extra of the plain logging post-processors
@@ -230,7 +237,7 @@ func (p c12) start(c *core.Ctx) {
 			plain = append(plain, len(extra))
 			extra = append(extra, world.NewLatePP(cl, name, ordPool[c.Rng.Intn(len(ordPool))], ord))
 			late++
-		} else if withLazy && c.Rng.Intn(2) == 0 {
+		} else if withLazy && (allLazy || c.Rng.Intn(2) == 0) {
 			// used as registered, without being created first: still one participant of the one sequence
 			plain = append(plain, len(extra))
 			extra = append(extra, world.NewLazyPP(cl, name, ord))
@@ -288,7 +295,7 @@ func (p c12) start(c *core.Ctx) {
 		wantLoads[name] = 2
 		c.Count("starts_with_field_wise_equal_loaders", 1)
 	}
-	opts := world.Options{Extra: extra, Loaders: loaders}
+	opts := world.Options{Extra: extra, Loaders: loaders, NoObserver: allLazy}
 	if twin != nil {
 		// every loader is added through the adding option, one by one (the twin last)
 		opts.Loaders = nil
